@@ -2,6 +2,7 @@ package tax
 
 import (
 	"context"
+	"errors"
 	"fmt"
 
 	"github.com/invopop/gobl/cbc"
@@ -33,6 +34,11 @@ func CleanSet(s Set) Set {
 func (s Set) ValidateWithContext(ctx context.Context) error {
 	combos := make(map[cbc.Code]cbc.Key)
 	for i, c := range s {
+		if c == nil {
+			return validation.Errors{
+				fmt.Sprintf("%d", i): errors.New("must not be null"),
+			}
+		}
 		if _, ok := combos[c.Category]; ok {
 			return validation.Errors{
 				fmt.Sprintf("%d", i): fmt.Errorf("category %v is duplicated", c.Category),
@@ -69,7 +75,7 @@ func (s Set) Equals(s2 Set) bool {
 // Get the Rate key for the given category
 func (s Set) Get(cat cbc.Code) *Combo {
 	for _, c := range s {
-		if c.Category == cat {
+		if c != nil && c.Category == cat {
 			return c
 		}
 	}
